@@ -47,7 +47,7 @@ theorem u16ok_decodeFuel (n : Nat) (s : GoStr) : ∀ r ∈ decodeFuel n s, U16OK
 theorem tinv_initL (input : GoStr) : TInv (decodeAll input) (initL input) := by
   refine ⟨inv_initL input, u16ok_decodeFuel _ _, [], ?_, ?_, ?_⟩
   · simp [initL]
-  · simp [initL, posOf]
+  · simp [initL, linesOf]
   · intro r hr; simp [initL] at hr
 
 /-- every configuration the run loop hands to a state function meets `TInv` -/
